@@ -195,7 +195,7 @@ class W:
 
 # ---------------------------------------------------------------------------
 # operation builders: (site, fn(ec) -> library answer, expectation)
-# expectation: ("point", ref) | ("eq", value) | ("root", a, p) | ("refuse",) | ("pending", what)
+# expectation: ("point", ref) | ("eq", value) | ("inverse", want, operands, m) | ("root", a, p) | ("refuse",)
 # ---------------------------------------------------------------------------
 def _op_mult(w: W) -> Op:
     m, Q = w.scalar("mult.m"), w.point("mult.Q")
@@ -368,9 +368,7 @@ def _op_refusal(w: W) -> Op:
             "prepared": lambda ec: PreparedPoint(B, ec).mult(m),
             "bytes_from_point": lambda ec: bytes_from_point(B, ec, bool(m % 2)),
         }[api]
-    # PENDING-FINDING: an x outside 0..p-1 (congruent to a valid x) is answered or raises OverflowError;
-    # reported to the coordinator, logged as a probe until decided
-    return "refusal:" + api, fn, ("pending", "x-out-of-range") if kind == "x-range" else ("refuse",)
+    return "refusal:" + api, fn, ("refuse",)
 
 
 def _op_bad_curve(w: W) -> Op:
@@ -419,24 +417,18 @@ def _execute(w: W, op: Op, first: Any = None, again: bool = False) -> Any:
     ctx = w.ctx
     site, fn, expect = op
     mark = len(w.rng.draws)
-    if expect[0] in ("refuse", "pending"):
+    if expect[0] == "refuse":
         try:
-            got = fn(w.ec)
+            wrong = f"answered {fn(w.ec)!r} for an operand that has no answer"
         except BTClibException as e:
+            wrong = ""
             ctx.log("refused", site, type(e).__name__)
-            answer: Any = "refused"
         except Exception as e:  # noqa: BLE001
-            if expect[0] == "pending":
-                ctx.probe(f"pending:{expect[1]}-raised-{type(e).__name__}")
-                return "pending"
-            ctx.check(P, "refuses-bad-input", False, f"{site}: {type(e).__name__}: {e} instead of a library exception", site=site)
-            raise RunAborted(f"{site} raised {type(e).__name__}") from e
-        else:
-            if expect[0] == "pending":
-                ctx.probe(f"pending:{expect[1]}-answered")
-                return "pending"
-            ctx.check(P, "refuses-bad-input", False, f"{site}: answered {got!r} for an operand that has no answer", site=site)
-            answer = got
+            wrong = f"{type(e).__name__}: {e} instead of a library exception"
+        ctx.check(P, "refuses-bad-input", not wrong, f"{site} on {w.label}: {wrong}", site=site)
+        if wrong:
+            raise RunAborted(f"{site}: {wrong}")
+        answer: Any = "refused"
     else:
         with ctx.must_succeed(P, "valid-input-answered", site):
             got = fn(w.ec)
@@ -460,7 +452,7 @@ def _execute(w: W, op: Op, first: Any = None, again: bool = False) -> Any:
             ctx.check(P, "root-squares-back", isinstance(got, int) and (got * got - a) % p == 0, lambda: f"{site}({a}, {p}) = {got}", site=site)
         else:
             answer = got
-            inv = "codec-round-trip" if site.startswith("codec") else "legendre-exact" if site.startswith("legendre") else "group-law"
+            inv = "codec-round-trip" if site.startswith("codec") else "legendre-exact"
             ctx.check(P, inv, got == expect[1], lambda: f"{site} on {w.label}: {got!r} != {expect[1]!r}", site=site)
     for n, v in w.rng.draws[mark:]:
         if v in (0, n - 1):
@@ -518,8 +510,7 @@ def _ops(w: W) -> None:
             answer = _execute(w, op)
             warm = any(c.cache_info().currsize for c in (w.shrunk.new if w.shrunk else [o for _, _, o in st.discover_caches()]))
             ctx.state(f"{op[0]}:{w.kind}:{'warm' if warm else 'cold'}:{st.backend()}:{shrink}")
-            if answer != "pending":
-                w.history = (w.history + [(op, answer)])[-8:]
+            w.history = (w.history + [(op, answer)])[-8:]
         if w.shrunk is not None and any(c.cache_info().misses > c.cache_info().currsize for c in w.shrunk.new):
             ctx.probe("eviction")
     finally:
@@ -659,7 +650,6 @@ CHECKS = {
             "toy curves are kept only when n > 4*sqrt(p) (where SEC 1's cofactor formula is exact); points handed over are points of the prime-order subgroup",
             "the for-all over curves and scalars is sampled, not decided; multi-scalar term counts <= 2*BOS_COSTER_THRESHOLD",
             "pre-emption only at first-visit line boundaries of btclib frames; calls into C (bindings, lru_cache, pow) are atomic",
-            "PENDING-FINDING: a point whose x lies outside 0..p-1 is generated but only logged (probe pending:x-out-of-range-*)",
         ],
     },
 }
